@@ -35,6 +35,10 @@ func runC20(e *Env) {
 	if e.want("C20.R4") {
 		c20WhoSetsCode(e)
 	}
+	r.Rule("C20.R5", "bounds+flows", "option 258 is recognised on the wire: option numbers accumulate over every parsed option, also skipped ones", 1)
+	if e.want("C20.R5") {
+		c02AccumulateAs(e, "C20.R5")
+	}
 
 	if f := e.fn("C20.R1", "message/noresponse.IsNoResponseCode"); f != nil && len(f.Params) == 2 && e.want("C20.R1") {
 		w, signed, okT := intTypeOf(f.Params[0].Type())
